@@ -4,6 +4,7 @@ import (
 	"bytes"
 	"compress/flate"
 	"context"
+	"crypto/sha256"
 	"encoding/base64"
 	"encoding/xml"
 	"errors"
@@ -354,6 +355,8 @@ func c09IdpMetadata() *saml.EntityDescriptor {
 		kds := md.IDPSSODescriptors[0].KeyDescriptors
 		bad := saml.KeyDescriptor{Use: "signing", KeyInfo: saml.KeyInfo{X509Data: saml.X509Data{X509Certificates: []saml.X509Certificate{{Data: c09B64([]byte("0\x82\x01\x0anot a certificate, though it starts like a DER sequence"))}}}}}
 		switch c09CertMode {
+		case "fingerprint", "pinned":
+			kds = nil
 		case "bad-first":
 			kds = append([]saml.KeyDescriptor{bad}, kds...)
 		case "bad-last":
@@ -369,6 +372,20 @@ func c09IdpMetadata() *saml.EntityDescriptor {
 
 func c09NewSP() *saml.ServiceProvider {
 	s := newSP(c09SpBase, rsaKeys[1], "", c09IdpMetadata())
+	switch c09CertMode {
+	case "fingerprint":
+		// trust by certificate fingerprint: the certificate is taken from the message's KeyInfo before anything is verified
+		sum := sha256.Sum256(rsaKeys[0].Cert.Raw)
+		parts := make([]string, len(sum))
+		for i, b := range sum {
+			parts[i] = fmt.Sprintf("%02X", b)
+		}
+		fp, alg := strings.Join(parts, ":"), "http://www.w3.org/2001/04/xmlenc#sha256"
+		s.IDPCertificateFingerprint, s.IDPCertificateFingerprintAlgorithm = &fp, &alg
+	case "pinned":
+		c := rsaKeys[0].CertB64()
+		s.IDPCertificate = &c
+	}
 	return s
 }
 
@@ -798,7 +815,18 @@ var c09MetaShapes = []string{
 	"cacheduration-fraction-63", "cacheduration-fraction-64", "cacheduration-fraction-65", "cacheduration-fraction-1000", "cacheduration-huge-years", "cacheduration-max-seconds",
 	"cacheduration-negative", "cacheduration-bare-p", "cacheduration-bare-pt", "cacheduration-dot-only", "cacheduration-all-fields", "cacheduration-empty",
 	"validuntil-year-99999", "validuntil-fraction-1000", "validuntil-year-0", "validuntil-empty", "validuntil-zone-99",
+	"with-affiliation-descriptor", "entities-with-affiliation", "affiliation-only", "kitchen-sink",
 }
+
+// elements of the metadata schema that IdP metadata and federation aggregates may carry beside the IDPSSODescriptor
+const c09Affiliation = `<AffiliationDescriptor affiliationOwnerID="https://federation.example.org/members" cacheDuration="PT1H" validUntil="2030-01-01T00:00:00Z"><AffiliateMember>https://idp.example.com/metadata</AffiliateMember><AffiliateMember>https://sp.example.com/saml/metadata</AffiliateMember></AffiliationDescriptor>`
+const c09KitchenSink = `<Extensions><x:Info xmlns:x="urn:example:ext">i</x:Info></Extensions>` +
+	`<AuthnAuthorityDescriptor protocolSupportEnumeration="urn:oasis:names:tc:SAML:2.0:protocol"><AuthnQueryService Binding="urn:oasis:names:tc:SAML:2.0:bindings:SOAP" Location="https://idp.example.com/authnq"/></AuthnAuthorityDescriptor>` +
+	`<AttributeAuthorityDescriptor protocolSupportEnumeration="urn:oasis:names:tc:SAML:2.0:protocol"><AttributeService Binding="urn:oasis:names:tc:SAML:2.0:bindings:SOAP" Location="https://idp.example.com/attr"/></AttributeAuthorityDescriptor>` +
+	`<PDPDescriptor protocolSupportEnumeration="urn:oasis:names:tc:SAML:2.0:protocol"><AuthzService Binding="urn:oasis:names:tc:SAML:2.0:bindings:SOAP" Location="https://idp.example.com/authz"/></PDPDescriptor>` +
+	`<Organization><OrganizationName xml:lang="en">Example</OrganizationName><OrganizationDisplayName xml:lang="en">Example Org</OrganizationDisplayName><OrganizationURL xml:lang="en">https://example.com/</OrganizationURL></Organization>` +
+	`<ContactPerson contactType="technical"><GivenName>Ada</GivenName><EmailAddress>mailto:ada@example.com</EmailAddress></ContactPerson>` +
+	`<AdditionalMetadataLocation namespace="urn:example:ns">https://example.com/more-metadata.xml</AdditionalMetadataLocation>`
 
 // c09MetaTexts: lexical forms of xsd:duration / xsd:dateTime attributes (well-formed ones included) a metadata document may carry.
 var c09MetaTexts = map[string][2]string{
@@ -845,7 +873,20 @@ func c09BuildMetadata(shape string) []byte {
 	if t, ok := c09MetaTexts[shape]; ok {
 		return edit(func(r *etree.Element) { r.CreateAttr(t[0], t[1]) })
 	}
+	// insert raw children at the end of the IdP's EntityDescriptor
+	withChildren := func(xmlText string) string {
+		i := strings.LastIndex(idp, "</")
+		return idp[:i] + xmlText + idp[i:]
+	}
 	switch shape {
+	case "with-affiliation-descriptor":
+		return []byte(withChildren(c09Affiliation))
+	case "entities-with-affiliation":
+		return []byte(`<EntitiesDescriptor ` + ns + `><EntityDescriptor entityID="https://federation.example.org/members">` + c09Affiliation + `</EntityDescriptor>` + idp + `</EntitiesDescriptor>`)
+	case "affiliation-only":
+		return []byte(`<EntityDescriptor ` + ns + ` entityID="https://federation.example.org/members">` + c09Affiliation + `</EntityDescriptor>`)
+	case "kitchen-sink":
+		return []byte(withChildren(c09KitchenSink + c09Affiliation))
 	case "entities-with-idp":
 		return []byte(`<EntitiesDescriptor ` + ns + `>` + spmd + idp + `</EntitiesDescriptor>`)
 	case "entities-without-idp":
@@ -913,6 +954,49 @@ func c09CorruptBytes(b []byte, st *c09Step) []byte {
 		return c09RandBytes(st.Seed, st.N)
 	case "rootless-document":
 		return []byte(c09Rootless[st.Variant%len(c09Rootless)])
+	case "keyinfo-cert-text", "retrieval-method":
+		doc := etree.NewDocument()
+		if err := doc.ReadFromBytes(b); err != nil || doc.Root() == nil {
+			return b
+		}
+		var all []*etree.Element
+		c01All(doc.Root(), &all)
+		for _, e := range all {
+			switch {
+			case st.Op == "keyinfo-cert-text" && e.Tag == "X509Certificate" && e.Parent() != nil && e.Parent().Parent() != nil && e.Parent().Parent().Parent() != nil && e.Parent().Parent().Parent().Tag == "Signature":
+				// the certificate text inside a signature's KeyInfo (not signed content): armour lines, white space, garbage, nothing
+				own := strings.TrimSpace(e.Text())
+				texts := []string{
+					"-----BEGIN CERTIFICATE-----\n" + own, own + "\n-----END CERTIFICATE-----", "-----END CERTIFICATE-----\n" + own + "\n-----BEGIN CERTIFICATE-----",
+					"-----BEGIN CERTIFICATE-----\n" + own + "\n-----END CERTIFICATE-----", "-----BEGIN CERTIFICATE-----", "-----END CERTIFICATE-----", "", " \n ", "!!!not base64!!!",
+					own[:len(own)/2], own + own, "AAAA", strings.Repeat("A", 100_000), own[:len(own)-1],
+				}
+				e.SetText(texts[st.N%len(texts)])
+				if st.N%len(texts) == 9 {
+					e.CreateComment("c") // a second child node beside the text
+				}
+			case st.Op == "retrieval-method" && e.Tag == "EncryptedData":
+				// the one-key-per-recipient layout: EncryptedKey beside EncryptedData, referenced from it by a RetrievalMethod URI
+				ki := e.FindElement("./KeyInfo")
+				if ki == nil || e.Parent() == nil {
+					continue
+				}
+				uris := []string{"#key-1", "#key-2'", "#key[2", "#", "", "#]", "#a'][b", "no-hash", "#key=1", "#\"", "#*", "#key-1/../x", "#" + strings.Repeat("k", 70_000)}
+				uri := uris[st.N%len(uris)]
+				rm := etree.NewElement("ds:RetrievalMethod")
+				rm.CreateAttr("xmlns:ds", "http://www.w3.org/2000/09/xmldsig#")
+				rm.CreateAttr("Type", "http://www.w3.org/2001/04/xmlenc#EncryptedKey")
+				rm.CreateAttr("URI", uri)
+				if ek := ki.FindElement("./EncryptedKey"); ek != nil && st.Variant%2 == 0 {
+					ki.RemoveChild(ek)
+					ek.CreateAttr("Id", "key-1")
+					e.Parent().AddChild(ek)
+				}
+				ki.InsertChildAt(0, rm)
+			}
+		}
+		out, _ := doc.WriteToBytes()
+		return out
 	case "strip-keyinfo":
 		// KeyInfo is not signed content: anybody on the wire can drop it from a signature
 		doc := etree.NewDocument()
@@ -1675,10 +1759,15 @@ func c09Mut(st *c09Step) func(*etree.Element) {
 // ---- response family
 
 var c09CertModes = []string{"bad-first", "bad-last", "two-good", ""}
+var c09TrustModes = []string{"fingerprint", "fingerprint", "pinned", ""}
 
 func c09ExecResponse(c *c09Ctx, st *c09Step, k c09Knobs) {
 	if st.Kind == "corrupt" && st.Op == "strip-keyinfo" {
 		c09CertMode = c09CertModes[st.Variant%len(c09CertModes)]
+		defer func() { c09CertMode = "" }()
+	}
+	if st.Kind == "corrupt" && st.Op == "keyinfo-cert-text" {
+		c09CertMode = c09TrustModes[st.Variant%len(c09TrustModes)]
 		defer func() { c09CertMode = "" }()
 	}
 	spv := c09NewSP()
@@ -1778,6 +1867,10 @@ func c09ExecResponse(c *c09Ctx, st *c09Step, k c09Knobs) {
 func c09ExecLogout(c *c09Ctx, st *c09Step) {
 	if st.Kind == "corrupt" && st.Op == "strip-keyinfo" {
 		c09CertMode = c09CertModes[st.Variant%len(c09CertModes)]
+		defer func() { c09CertMode = "" }()
+	}
+	if st.Kind == "corrupt" && st.Op == "keyinfo-cert-text" {
+		c09CertMode = c09TrustModes[st.Variant%len(c09TrustModes)]
 		defer func() { c09CertMode = "" }()
 	}
 	spv := c09NewSP()
@@ -2230,14 +2323,14 @@ func genTotality(g *Rng, tier string) *Plan {
 			st.Layer = "xml"
 			switch st.Family {
 			case "response":
-				ops = append(ops, "strip-keyinfo", "strip-keyinfo", "strip-keyinfo", "cipher-algorithm", "cipher-algorithm", "cipher-algorithm", "cipher-algorithm", "cipher-algorithm", "ciphervalue-short", "ciphervalue-short", "ciphervalue-short", "ciphervalue-short", "encrypted-plaintext", "encrypted-plaintext", "encrypted-plaintext", "encrypted-plaintext")
+				ops = append(ops, "keyinfo-cert-text", "keyinfo-cert-text", "keyinfo-cert-text", "retrieval-method", "retrieval-method", "retrieval-method", "strip-keyinfo", "strip-keyinfo", "strip-keyinfo", "cipher-algorithm", "cipher-algorithm", "cipher-algorithm", "cipher-algorithm", "cipher-algorithm", "ciphervalue-short", "ciphervalue-short", "ciphervalue-short", "ciphervalue-short", "encrypted-plaintext", "encrypted-plaintext", "encrypted-plaintext", "encrypted-plaintext")
 				if st.Entry == "ParseResponse/post" {
 					ops = append(ops, "b64-cut", "b64-pad", "b64-badchar")
 				}
 			case "logout", "authnrequest":
 				ops = append(ops, "b64-cut", "b64-pad", "b64-badchar", "b64-badchar")
 				if st.Family == "logout" {
-					ops = append(ops, "strip-keyinfo", "strip-keyinfo", "strip-keyinfo")
+					ops = append(ops, "strip-keyinfo", "strip-keyinfo", "strip-keyinfo", "keyinfo-cert-text", "keyinfo-cert-text")
 				}
 				if c09Deflated(st.Entry) {
 					ops = append(ops, "truncate@deflate", "truncate@deflate", "bitflip@deflate", "bitflip@deflate", "garbage@deflate", "not-deflated")
@@ -2267,6 +2360,12 @@ func genTotality(g *Rng, tier string) *Plan {
 				st.N = g.Intn(5)
 			case "strip-keyinfo":
 				st.Variant = g.Intn(len(c09CertModes))
+			case "keyinfo-cert-text":
+				st.Variant = g.Intn(len(c09TrustModes))
+				st.N = g.Intn(14)
+			case "retrieval-method":
+				st.Variant = g.Intn(2)
+				st.N = g.Intn(13)
 			case "hostile-attribute":
 				st.Variant = g.Intn(len(c09HostileAttrs))
 				st.N = g.Intn(len(c09HostileValues) + 1)
@@ -2441,7 +2540,7 @@ func simplifyTotality(p *Plan) []*Plan {
 				with(i, func(s *c09Step) { s.Omit[j] = to })
 			}
 		}
-		if st.Kind == "corrupt" && !(st.Op == "rootless-document" && st.Layer == "xml") && st.Op != "ciphervalue-short" && st.Op != "encrypted-plaintext" && st.Op != "cipher-algorithm" && st.Op != "strip-keyinfo" && st.Op != "hostile-attribute" {
+		if st.Kind == "corrupt" && !(st.Op == "rootless-document" && st.Layer == "xml") && st.Op != "ciphervalue-short" && st.Op != "encrypted-plaintext" && st.Op != "cipher-algorithm" && st.Op != "strip-keyinfo" && st.Op != "hostile-attribute" && st.Op != "keyinfo-cert-text" && st.Op != "retrieval-method" {
 			with(i, func(s *c09Step) {
 				s.Op, s.Layer, s.Variant, s.Pms, s.N, s.Pm = "rootless-document", "xml", 0, nil, 0, 0
 			})
@@ -2520,7 +2619,7 @@ func simplifyTotality(p *Plan) []*Plan {
 func init() {
 	register(&Profile{
 		ID: "C09", Name: "totality", Level: "fault_enumeration",
-		Rule: "a run is either (1) a back-channel fault sequence: 1-4 artifact resolutions (ParseResponse with SAMLart) / FetchMetadata calls through a SimTransport, each with one fault kind of the enumeration {conn_err, status 401/404/500/503/302(+Location), empty, truncated(err|clean)@permille, slow(chunks x delay), stall headers|body until the client/context deadline, garbage, SOAP fault, 10 wrong envelopes, wrong InResponseTo(other|absent|previous), bad status, unsigned, wrong key, good} - every kind x position is covered and counted in extra[cov:...]; or (2) 1-3 in-flight inputs: a foreign IdP omits a sampled subset of optional elements/attributes and re-signs (Response, Assertion plaintext/encrypted in R/A/RA signing layouts, LogoutResponse, AuthnRequest, registered SP metadata, metadata documents), or the network corrupts a genuine message (truncate, bit flips, base64 cut/pad/bad char, deflate-layer damage, rootless documents, depth-10k nesting, MB-sized attribute, CipherValue of 0-4 blocks(+1), foreign plaintext under valid encryption), or a 12-300 MB deflate bomb, on every consuming entry point of SP, IdP, bundled server and metadata parser. Part (1) is enumerated, part (2) is sampled. non-trivial = the run contains at least one input that is not the genuine message / at least one injected back-channel fault; distinct = distinct abstract event log (entry, shape, parameters, expectation, outcome class); back-channel faults include a body whose Close fails, an endless chain of 307 redirects to fresh URLs (more than 200 back-channel requests in one call is a hang) and a body shorter or longer than its announced length; 30% of artifact deliveries present a well-formed type-4 artifact with endpoint index 0,1,2,3 or 65535; encrypted assertions use every content-encryption algorithm the library registers a decrypter for (aes128/192/256-cbc, tripledes-cbc, aes128-gcm) and six key-transport variants, with cipher values of 19 lengths; root-element attributes whose text is parsed (URLs, instants, numbers) take 30 hostile texts before signing; KeyInfo is dropped from signatures while the SP's IdP metadata lists one certificate, two, or one beside an entry that is no certificate; metadata carries 17 further xsd:duration / xsd:dateTime lexical forms (64+ fraction digits, huge years, empty, year 0)",
+		Rule: "a run is either (1) a back-channel fault sequence: 1-4 artifact resolutions (ParseResponse with SAMLart) / FetchMetadata calls through a SimTransport, each with one fault kind of the enumeration {conn_err, status 401/404/500/503/302(+Location), empty, truncated(err|clean)@permille, slow(chunks x delay), stall headers|body until the client/context deadline, garbage, SOAP fault, 10 wrong envelopes, wrong InResponseTo(other|absent|previous), bad status, unsigned, wrong key, good} - every kind x position is covered and counted in extra[cov:...]; or (2) 1-3 in-flight inputs: a foreign IdP omits a sampled subset of optional elements/attributes and re-signs (Response, Assertion plaintext/encrypted in R/A/RA signing layouts, LogoutResponse, AuthnRequest, registered SP metadata, metadata documents), or the network corrupts a genuine message (truncate, bit flips, base64 cut/pad/bad char, deflate-layer damage, rootless documents, depth-10k nesting, MB-sized attribute, CipherValue of 0-4 blocks(+1), foreign plaintext under valid encryption), or a 12-300 MB deflate bomb, on every consuming entry point of SP, IdP, bundled server and metadata parser. Part (1) is enumerated, part (2) is sampled. non-trivial = the run contains at least one input that is not the genuine message / at least one injected back-channel fault; distinct = distinct abstract event log (entry, shape, parameters, expectation, outcome class); back-channel faults include a body whose Close fails, an endless chain of 307 redirects to fresh URLs (more than 200 back-channel requests in one call is a hang) and a body shorter or longer than its announced length; 30% of artifact deliveries present a well-formed type-4 artifact with endpoint index 0,1,2,3 or 65535; encrypted assertions use every content-encryption algorithm the library registers a decrypter for (aes128/192/256-cbc, tripledes-cbc, aes128-gcm) and six key-transport variants, with cipher values of 19 lengths; root-element attributes whose text is parsed (URLs, instants, numbers) take 30 hostile texts before signing; KeyInfo is dropped from signatures while the SP's IdP metadata lists one certificate, two, or one beside an entry that is no certificate; metadata carries 17 further xsd:duration / xsd:dateTime lexical forms (64+ fraction digits, huge years, empty, year 0); the certificate text inside a signature's KeyInfo takes 14 shapes (PEM armour opened/closed/reversed, empty, garbage, truncated, 100 kB) under fingerprint, pinned and metadata trust; EncryptedData carries a RetrievalMethod with 13 URI shapes, the EncryptedKey beside it; metadata carries AffiliationDescriptor, the other role descriptors, Organization, ContactPerson, Extensions; a worker process that dies inside a run (stack overflow, out of memory: not a panic) leaves the plan behind, the driver re-executes it alone and reports class fatal if the process dies again",
 		Gen:  genTotality, Exec: execTotality, Simplify: simplifyTotality,
 		RunsQuick: 3000, RunsThorough: 300000,
 		Assumptions: []string{
